@@ -278,7 +278,7 @@ class C01(Check):
         # log times never decrease in sequence order
         last = None
         got = {}
-        for (seq, act, idx, kind, now, payload) in it.log:
+        for (seq, act, idx, kind, now, payload, _k) in it.log:
             if seq > it.end_seq:
                 break
             if last is not None and now < last:
